@@ -278,6 +278,45 @@ func TestVerifFeeMarketRows(t *testing.T) {
 		}
 	}
 
+	// (2b) previous price below the minimum price (fresh all-zero state, or rules that raised the minimum) in all three
+	// branches: usage above / equal to / below the target, inside the window, at its edge and beyond it
+	{
+		M := uint64(math.MaxUint64)
+		type b struct{ price, min, target, usage, denom uint64 }
+		fam := []struct {
+			nowMs int64
+			dims  [fees.FeeDimensions]b
+		}{
+			{901_000, [fees.FeeDimensions]b{{0, 100, 1000, 5000, 48}, {1, 100, 1000, 1000, 48}, {99, 100, 1000, 1001, 48}, {99, 100, 1000, 1000, 2}, {50, 100, 1000, 10, 48}}},
+			{900_400, [fees.FeeDimensions]b{{0, 100, 7, 7, 3}, {5, 1 << 40, 1000, 2000, 48}, {1<<62 - 1, 1 << 62, 10, 1 << 40, 5}, {1, M, 3, 9, 1}, {6, 100, 1 << 30, 1 << 30, 48}}},
+			{909_000, [fees.FeeDimensions]b{{0, 1, 1, 2, 1}, {0, 1, 1, 1, 1}, {99, 100, M - 1, M, 48}, {99, 100, M, M, 48}, {M - 1, M, 1000, 5000, 2}}},
+			{910_000, [fees.FeeDimensions]b{{0, 100, 1000, 5000, 48}, {1, 100, 1000, 1000, 48}, {99, 100, 1, 0, 48}, {5, 6, 1000, 999, 2}, {0, 1 << 63, 1 << 20, 0, 3}}},
+			{915_000, [fees.FeeDimensions]b{{0, 100, 1000, 5000, 48}, {1, 100, 1000, 1000, 48}, {99, 100, 1000, 2000, 48}, {5, 6, 1000, 999, 2}, {0, M, 1, 1, 1}}},
+		}
+		for _, f := range fam {
+			var p, l [fees.FeeDimensions]uint64
+			var win [fees.FeeDimensions][window.WindowSize]uint64
+			r := &rules{}
+			for d, x := range f.dims {
+				p[d], l[d] = x.price, x.usage
+				r.target[d], r.denom[d], r.min[d] = x.target, x.denom, x.min
+			}
+			emit("belowmin", ifees.NewManager(encodeState(900, p, win, l)), p, l, win, 900, f.nowMs, r)
+		}
+		// a fresh all-zero state (NewManager(nil)) whose first block met the target exactly / exceeded it
+		{
+			m := ifees.NewManager(nil)
+			r := &rules{}
+			for d := 0; d < fees.FeeDimensions; d++ {
+				r.target[d], r.denom[d], r.min[d] = 1000, 48, 100
+				m.SetLastConsumed(fees.Dimension(d), []uint64{1000, 1001, 0, 5000, 999}[d])
+			}
+			m = ifees.NewManager(append([]byte{}, m.Bytes()...))
+			p, l, win := decodeAll(m)
+			emit("belowmin", m, p, l, win, 0, 3_000, r)
+		}
+	}
+
 	// (3) window sum overflowing at every slot position (same second, so the slots keep their place): slot j holds
 	// nearly the whole word, the next slot tips the running sum over, the remaining slots are small
 	{
